@@ -24,6 +24,8 @@ def strict_equal(a: Any, b: Any) -> bool:
         return set(a) == set(b) and all(strict_equal(a[k], b[k]) for k in a)
     if isinstance(a, list):
         return len(a) == len(b) and all(strict_equal(x, y) for x, y in zip(a, b))
+    if isinstance(a, float):
+        return (a != a and b != b) or (a == b and str(a) == str(b))  # NaN is NaN; -0.0 is not 0.0
     return a == b
 
 
@@ -74,7 +76,7 @@ def _scalar_node(v: Any, spelling: Optional[str], quote: Optional[str]) -> yaml.
     if isinstance(v, int):
         return yaml.ScalarNode("tag:yaml.org,2002:int", spelling or str(v))
     if isinstance(v, float):
-        return yaml.ScalarNode("tag:yaml.org,2002:float", spelling or repr(v))
+        return yaml.ScalarNode("tag:yaml.org,2002:float", spelling or _float_text(v))
     if isinstance(v, str):
         style = quote  # None (plain if possible) | "'" | '"'
         node = yaml.ScalarNode("tag:yaml.org,2002:str", v, style=style)
@@ -153,8 +155,21 @@ def emit(obj: Any, choices: Optional[Dict[Path, dict]] = None, indent: int = 2, 
     return text
 
 
+def _float_text(v: float) -> str:
+    return ".nan" if v != v else ".inf" if v == float("inf") else "-.inf" if v == float("-inf") else repr(v)
+
+
+def _float_spellings(v: float) -> List[str]:
+    if v != v:
+        return [".NaN", ".NAN"]
+    if v in (float("inf"), float("-inf")):
+        return [".Inf", ".INF", "+.inf"] if v > 0 else ["-.Inf", "-.INF"]
+    return [s for s in (repr(v) + "0", ("%.1fe+1" % (v / 10.0)) if v == float("%.1fe+1" % (v / 10.0)) else None, "+" + repr(v) if (v >= 0 and str(v)[0] != "-") else None) if s]
+
+
 SPELLINGS = {
-    float: lambda v: [s for s in (repr(v) + "0", ("%.1fe+1" % (v / 10.0)) if v == float("%.1fe+1" % (v / 10.0)) else None, "+" + repr(v) if v >= 0 else None) if s],
+    float: _float_spellings,
+    "unused": lambda v: [s for s in (repr(v) + "0", ("%.1fe+1" % (v / 10.0)) if v == float("%.1fe+1" % (v / 10.0)) else None, "+" + repr(v) if v >= 0 else None) if s],
     int: lambda v: [s for s in (hex(v) if v >= 0 else None, "0" + oct(v)[2:] if v > 7 else None, "+%d" % v if v >= 0 else None) if s],
     bool: lambda v: ["yes", "True", "on"] if v else ["no", "False", "off"],
     type(None): lambda v: ["~", "Null", ""],
@@ -327,7 +342,7 @@ def scalar_mutants(v: Any) -> List[Any]:
     if isinstance(v, int):
         return [v + 1]
     if isinstance(v, float):
-        return [v + 0.5]
+        return [v + 0.5] if v == v and v not in (float("inf"), float("-inf")) else [1.0]
     if isinstance(v, str):
         return [v + "_x"]
     if v is None:
